@@ -1141,9 +1141,8 @@ func (c *Conn) writeRequest(ctx *Ctx) error {
 
 	if hasBody {
 		pb := &pendingBody{
-			ctx:    ctx,
-			window: c.streamWindow,
-			size:   -1,
+			ctx:  ctx,
+			size: -1,
 		}
 
 		if bodyStream {
@@ -1156,7 +1155,12 @@ func (c *Conn) writeRequest(ctx *Ctx) error {
 			pb.body = req.Body()
 		}
 
+		// The window is read under the lock that registers the body: the read
+		// loop rewrites streamWindow and every registered body together when
+		// SETTINGS_INITIAL_WINDOW_SIZE changes, and a change that fell between
+		// an unlocked read and the registration was lost for this stream.
 		c.sendLck.Lock()
+		pb.window = c.streamWindow
 		c.pending[id] = pb
 		c.sendLck.Unlock()
 	}
